@@ -82,9 +82,10 @@ def rhs_model(ctx):
                 probs = []
                 W = src = None
                 # rhs[i] += term  (the element was zero or holds the other sources on that pulse)
-                if isinstance(val, ast.BinOp) and isinstance(val.op, ast.Add) and isinstance(val.left, ast.Subscript) \
-                   and norm(val.left.slice) == mo.group(2) and not any(
-                       isinstance(n_, ast.Attribute) and n_.attr == 'voltage' for n_ in ast.walk(val.left)):
+                if isinstance(val, ast.BinOp) and isinstance(val.op, ast.Add) and (
+                        (isinstance(val.left, ast.Name) and val.left.id == '_old') or
+                        (isinstance(val.left, ast.Subscript) and norm(val.left.slice) == mo.group(2) and not any(
+                            isinstance(n_, ast.Attribute) and n_.attr == 'voltage' for n_ in ast.walk(val.left)))):
                     val = val.right
                 try:
                     pol = cancel(poly_roles(val, {}))
@@ -142,9 +143,9 @@ def load_model(ctx):
                             'self.Z[(%s, %s)]' % tuple(idx[:2])} if len(idx) >= 2 else set()
                 term = None
                 if isinstance(val, ast.BinOp) and isinstance(val.op, ast.Add):
-                    if norm(val.left) in old_txts:
+                    if norm(val.left) in old_txts | {'_old'}:
                         acc, term = True, val.right
-                    elif norm(val.right) in old_txts:
+                    elif norm(val.right) in old_txts | {'_old'}:
                         acc, term = True, val.left
                 if term is None:
                     term = val
